@@ -387,9 +387,11 @@ def run(env):
     if not env.quick():
         ftext = build_foreign(env).text()
         foreign = {}
-        for target in ("i686-unknown-linux-gnu", "s390x-unknown-linux-gnu", "aarch64-unknown-linux-gnu"):
-            sessions, note = fw.run_miri(env, "foreign-" + target.split("-")[0], ftext, target=target)
-            foreign[target] = note
+        # (target, cargo features): conjunctions of target and feature set select code too (e.g. a 32-bit no-alloc path)
+        for target, feats in (("i686-unknown-linux-gnu", None), ("s390x-unknown-linux-gnu", None), ("aarch64-unknown-linux-gnu", None),
+                              ("i686-unknown-linux-gnu", ["x25519"]), ("s390x-unknown-linux-gnu", ["x25519", "std"])):
+            sessions, note = fw.run_miri(env, "foreign-" + target.split("-")[0] + ("-" + "-".join(feats) if feats else ""), ftext, target=target, features=feats)
+            foreign[target + ("+" + ",".join(feats) if feats else "")] = note
             if sessions is not None:
                 env.pmap(monitor, sessions, workload="foreign", procs=1)
         env.extra_cov["foreign_targets_under_miri"] = foreign
